@@ -437,13 +437,17 @@ func init() { register("C13", checkC13) }
 
 // reachesWithout: starting after instruction index idx of block b, can `to` be executed before `avoid`?
 func reachesWithout(b *ssa.BasicBlock, idx int, to, avoid ssa.Instruction) bool {
+	return reachesWithoutAny(b, idx, to, map[ssa.Instruction]bool{avoid: true})
+}
+
+func reachesWithoutAny(b *ssa.BasicBlock, idx int, to ssa.Instruction, avoid map[ssa.Instruction]bool) bool {
 	// the rest of the first block, then the path-sensitive traversal (infeasible "error recorded, yet the
 	// success branch taken" paths are not walked)
 	for i := idx; i < len(b.Instrs); i++ {
 		if b.Instrs[i] == to {
 			return true
 		}
-		if b.Instrs[i] == avoid {
+		if avoid[b.Instrs[i]] {
 			return false
 		}
 	}
@@ -461,7 +465,7 @@ func reachesWithout(b *ssa.BasicBlock, idx int, to, avoid ssa.Instruction) bool 
 				hit = true
 				return false
 			}
-			if ins == avoid {
+			if avoid[ins] {
 				return false
 			}
 		}
